@@ -21,7 +21,7 @@ from harness import core, diskprop, enc_envelope as E, tlaparse, tlc
 
 LEVEL = "model_checking"
 
-LENS = {"empty": 0, "one": 1, "block-1": 4095, "block": 4096, "block+1": 4097, "big": (4 << 20) + 5000}
+LENS = {"empty": 0, "one": 1, "block-1": 4095, "block": 4096, "block+1": 4097, "big": (4 << 20) + 5000, "multi": (12 << 20) + 77}
 EXTRA_POOL = [
     (E.T_U8, "x.u8", 200, 0), (E.T_U16, "x.u16", 65000, 1), (E.T_U32, "x.u32", 0xDEADBEEF, 0), (E.T_U64, "x.u64", 2 ** 63 + 5, 0),
     (E.T_I8, "x.i8", -5, 0), (E.T_I16, "x.i16", -30000, 0), (E.T_I32, "x.i32", -2, 3), (E.T_I64, "x.i64", -(2 ** 62), 0),
@@ -196,17 +196,32 @@ def cli_cases(ctx, rng, key_text, key, key_id):
 def keystore_cases(ctx, rng):
     from dissect.hypervisor.util.envelope import KeyStore
 
-    d1 = [bytes(rng.randrange(256) for _ in range(16)) for _ in range(2)]
-    d2 = [bytes(rng.randrange(256) for _ in range(16)) for _ in range(2)]
-    kid = uuid.UUID(int=rng.getrandbits(128))
+    import base64
+
+    def rnd16(need=b"+/"):
+        # values whose base64 form contains the characters that get percent-escaped ('+', '/' and the '=' padding)
+        while True:
+            b = bytes(rng.randrange(256) for _ in range(16))
+            t = base64.b64encode(b)
+            if all(bytes([c]) in t for c in need):
+                return b
+
+    d1 = [rnd16() for _ in range(2)]
+    d2 = [rnd16() for _ in range(2)]
+    kid = uuid.UUID(bytes=rnd16())
     want = {(a, b): E.derive_key(d1[a], d2[b]) for a, b in ((0, 0), (1, 0), (0, 1))}
     # same key id, different stored values; different styles; repeated parsing in one process
     seq = [(0, 0, 0), (1, 0, 1), (0, 1, 2), (0, 0, 1), (1, 0, 0)]
     for a, b, style in seq:
-        ks = KeyStore.from_text(E.keystore_text(kid, d1[a], d2[b], style=style))
-        ctx.case(key=("ks", a, b, style), nontrivial=True)
-        if ks.key != want[(a, b)] or ks.id != str(kid):
-            ctx.violation({"fail": "kdf", "sub": "keystore"}, {"a": a, "b": b, "style": style, "id": ks.id})
+        for esc_case in ("esxi", "lower", "upper", "mixed"):
+            ctx.case(key=("ks", a, b, style, esc_case), nontrivial=True)
+            try:
+                ks = KeyStore.from_text(E.keystore_text(kid, d1[a], d2[b], style=style, esc_case=esc_case))
+            except Exception as e:  # noqa: BLE001
+                ctx.violation({"fail": "keystore-raised", "sub": "keystore", "esc_case": esc_case}, {"a": a, "b": b, "style": style, "error": repr(e)[:200]})
+                continue
+            if ks.key != want[(a, b)] or ks.id != str(kid):
+                ctx.violation({"fail": "kdf", "sub": "keystore", "esc_case": esc_case}, {"a": a, "b": b, "style": style, "id": ks.id})
     for mode in ("TPM", "", "none"):
         try:
             KeyStore.from_text(E.keystore_text(kid, d1[0], d2[0], mode=mode))
@@ -276,7 +291,7 @@ def byte_sweep(ctx, rng, key, key_id):
 def run(ctx):
     thorough = ctx.tier == "thorough"
     rng = random.Random(ctx.seed + 16)
-    ctx.rule = ("every terminal state of spec/Envelope.tla (6 payload length classes x 0-2 extra attributes x sealed AAD yes/no x 12 tamper "
+    ctx.rule = ("every terminal state of spec/Envelope.tla (7 payload length classes incl. 2 and 4 decryption chunks x 0-2 extra attributes x sealed AAD yes/no x 12 tamper "
                 "sites x given key right/wrong x given AAD same/none/other) realised with real AES-256-GCM envelopes (random attribute "
                 "types/order/flags, explicit extra padding), CLI runs on temp files, keystore texts in three styles; thorough: single-byte "
                 "alteration of every attribute-record byte, tag byte and a stride of ciphertext bytes. Non-trivial = every case.")
@@ -291,11 +306,13 @@ def run(ctx):
     wrong = bytes(32)
     if not thorough:
         big = [s for s in sts if s["sealed"]["len"] == "big"]
-        sts = [s for s in sts if s["sealed"]["len"] != "big"]
-        sts = rng.sample(sts, 900) + rng.sample(big, 12)
+        multi = [s for s in sts if s["sealed"]["len"] == "multi"]
+        sts = [s for s in sts if s["sealed"]["len"] not in ("big", "multi")]
+        sts = rng.sample(sts, 900) + rng.sample(big, 12) + rng.sample([s for s in multi if s["phase"] == "returned"], 6) + rng.sample(multi, 6)
     else:
         big = [s for s in sts if s["sealed"]["len"] == "big"]
-        sts = [s for s in sts if s["sealed"]["len"] != "big"] + rng.sample(big, 60)
+        multi = [s for s in sts if s["sealed"]["len"] == "multi"]
+        sts = [s for s in sts if s["sealed"]["len"] not in ("big", "multi")] + rng.sample(big, 60) + rng.sample(multi, 40)
 
     def work(sub, chunk, idx):
         r = random.Random(ctx.seed * 1600 + idx)
